@@ -32,6 +32,11 @@ pub enum COp {
     DropRule { kg: String, name: String },
     /// consistent read of a base relation from the incremental engine
     ReadConsistent { kg: String, rel: String },
+    // handler level only: one conditional statement = one operation
+    /// `-rel(X, Y) <- rel(X, Y), <col var> <cmp> <k>`
+    CondDelete { kg: String, rel: String, col: usize, cmp: String, k: i64 },
+    /// `-rel(X, Y), +rel(X, Z) <- rel(X, Y), <col var> <cmp> <k>, Z = Y + <add>`
+    Update { kg: String, rel: String, col: usize, cmp: String, k: i64, add: i64 },
     // persistence layer alone
     PAppend { shard: String, updates: Vec<(T, u64, i64)> },
     PFlush { shard: String },
@@ -194,7 +199,123 @@ pub fn apply_engine(e: &StorageEngine, op: &COp) -> Res {
                 Err(e) => Res::Err(e.to_string()),
             }
         }
+        COp::CondDelete { .. } | COp::Update { .. } => Res::Err("handler-level op at engine level".into()),
         COp::PAppend { .. } | COp::PFlush { .. } | COp::PCompact { .. } => Res::Err("persist-level op at engine level".into()),
+    }
+}
+
+fn first_number_after(msgs: &[String], marker: &str) -> Option<usize> {
+    for m in msgs {
+        if let Some(i) = m.find(marker) {
+            let rest = &m[i + marker.len()..];
+            let digits: String = rest.chars().skip_while(|c| !c.is_ascii_digit()).take_while(|c| c.is_ascii_digit()).collect();
+            if let Ok(n) = digits.parse() {
+                return Some(n);
+            }
+        }
+    }
+    None
+}
+
+/// The same operations as requests through the real Handler (`QueryJob::execute` via hook H1):
+/// every statement is one operation for the history checker.
+pub fn apply_handler(h: &inputlayer::protocol::handler::Handler, op: &COp) -> Res {
+    use crate::hsc::tuple_lit;
+    let run = |kg: &str, text: String| -> Result<Vec<String>, String> {
+        h.verif_execute_sync(Some(kg.to_string()), text).map(|q| {
+            let mut out = Vec::new();
+            for t in &q.rows {
+                for w in &t.values {
+                    if let inputlayer::protocol::wire::WireValue::String(s) = w {
+                        out.push(s.clone());
+                    }
+                }
+            }
+            out
+        })
+    };
+    let var = |col: usize| if col == 0 { "X" } else { "Y" };
+    match op {
+        COp::Insert { kg, rel, tuples } => {
+            let text = if tuples.len() == 1 { format!("+{rel}{}", tuple_lit(&tuples[0])) } else { format!("+{rel}[{}]", tuples.iter().map(tuple_lit).collect::<Vec<_>>().join(", ")) };
+            match run(kg, text) {
+                Ok(msgs) => match first_number_after(&msgs, "Inserted") {
+                    Some(n) => Res::Counts(n, tuples.len().saturating_sub(n)),
+                    None => Res::Err(format!("{msgs:?}")),
+                },
+                Err(e) => Res::Err(e),
+            }
+        }
+        COp::Delete { kg, rel, tuples } => {
+            let text = if tuples.len() == 1 { format!("-{rel}{}", tuple_lit(&tuples[0])) } else { format!("-{rel}[{}]", tuples.iter().map(tuple_lit).collect::<Vec<_>>().join(", ")) };
+            match run(kg, text) {
+                Ok(msgs) => match first_number_after(&msgs, "Deleted") {
+                    Some(n) => Res::Count(n),
+                    None => Res::Err(format!("{msgs:?}")),
+                },
+                Err(e) => Res::Err(e),
+            }
+        }
+        COp::CondDelete { kg, rel, col, cmp, k } => match run(kg, format!("-{rel}(X, Y) <- {rel}(X, Y), {} {cmp} {k}", var(*col))) {
+            Ok(msgs) => match first_number_after(&msgs, "Conditional delete:") {
+                Some(n) => Res::Count(n),
+                None => Res::Err(format!("{msgs:?}")),
+            },
+            Err(e) => Res::Err(e),
+        },
+        COp::Update { kg, rel, col, cmp, k, add } => match run(kg, format!("-{rel}(X, Y), +{rel}(X, Z) <- {rel}(X, Y), {} {cmp} {k}, Z = Y + {add}", var(*col))) {
+            Ok(msgs) => match first_number_after(&msgs, "Update:") {
+                Some(n) => Res::Count(n),
+                None => Res::Err(format!("{msgs:?}")),
+            },
+            Err(e) => Res::Err(e),
+        },
+        COp::Query { kg, rel, .. } | COp::Read { kg, rel } => {
+            let n = arity_of(op);
+            let vars: Vec<String> = (0..n).map(|i| format!("X{i}")).collect();
+            match h.verif_execute_sync(Some(kg.clone()), format!("?{rel}({})", vars.join(", "))) {
+                Ok(q) => {
+                    let mut rows: Vec<T> = q.rows.iter().map(|t| t.values.iter().map(wire_v).collect()).collect();
+                    rows.sort();
+                    Res::Tuples(rows)
+                }
+                Err(e) => Res::Err(e),
+            }
+        }
+        COp::RegisterRule { kg, text } => res_of(run(kg, format!("+{text}")), |m| Res::Text(format!("{m:?}"))),
+        COp::DropRule { kg, name } => match run(kg, format!(".rule drop {name}")) {
+            Ok(m) if m.iter().any(|x| x.contains("not found") || x.contains("does not exist")) => Res::Err(format!("{m:?}")),
+            Ok(_) => Res::Ok,
+            Err(e) => Res::Err(e),
+        },
+        other => {
+            let g = h.get_storage();
+            apply_engine(&g, other)
+        }
+    }
+}
+
+fn arity_of(op: &COp) -> usize {
+    match op {
+        COp::Query { arity, .. } => *arity,
+        _ => 2,
+    }
+}
+
+fn wire_v(w: &inputlayer::protocol::wire::WireValue) -> crate::values::V {
+    use crate::values::V;
+    use inputlayer::protocol::wire::WireValue as W;
+    match w {
+        W::Null => V::Null,
+        W::Int32(x) => V::I64(*x as i64),
+        W::Int64(x) => V::I64(*x),
+        W::Float64(f) => V::F64(f.to_bits()),
+        W::String(s) => V::Str(s.clone()),
+        W::Bool(b) => V::Bool(*b),
+        W::Timestamp(t) => V::Ts(*t),
+        W::Vector(v) => V::Vec(v.iter().map(|f| f.to_bits()).collect()),
+        W::VectorInt8(v) => V::VecI8(v.clone()),
+        W::Bytes(b) => V::Str(format!("bytes:{b:?}")),
     }
 }
 
@@ -337,7 +458,60 @@ fn model_apply(st: &mut MState, op: &COp) -> Exp {
                 Exp::ErrClass
             }
         }
+        COp::CondDelete { kg, rel, col, cmp, k } => {
+            let Some(g) = st.kgs.get_mut(kg) else { return Exp::ErrClass };
+            let mut n = 0;
+            if let Some(r) = g.get_mut(rel) {
+                let before = r.len();
+                r.retain(|t| !t.get(*col).and_then(int_of).is_some_and(|v| cmp_holds(v, cmp, *k)));
+                n = before - r.len();
+            }
+            Exp::Exact(Res::Count(n))
+        }
+        COp::Update { kg, rel, col, cmp, k, add } => {
+            let Some(g) = st.kgs.get_mut(kg) else { return Exp::ErrClass };
+            let mut d = 0;
+            if let Some(r) = g.get_mut(rel) {
+                let matched: Vec<T> = r.iter().filter(|t| t.get(*col).and_then(int_of).is_some_and(|v| cmp_holds(v, cmp, *k))).cloned().collect();
+                let mut ins = Vec::new();
+                for t in &matched {
+                    let mut nt = t.clone();
+                    if let Some(y) = nt.get(1).and_then(int_of) {
+                        nt[1] = crate::values::V::I64(y + add);
+                    }
+                    ins.push(nt);
+                }
+                for t in &matched {
+                    if r.remove(t) {
+                        d += 1;
+                    }
+                }
+                for t in ins {
+                    r.insert(t);
+                }
+            }
+            Exp::Exact(Res::Count(d))
+        }
         COp::PAppend { .. } | COp::PFlush { .. } | COp::PCompact { .. } => Exp::Any,
+    }
+}
+
+fn int_of(v: &crate::values::V) -> Option<i64> {
+    match v {
+        crate::values::V::I32(x) => Some(*x as i64),
+        crate::values::V::I64(x) => Some(*x),
+        _ => None,
+    }
+}
+
+fn cmp_holds(v: i64, cmp: &str, k: i64) -> bool {
+    match cmp {
+        ">" => v > k,
+        "<" => v < k,
+        ">=" => v >= k,
+        "<=" => v <= k,
+        "=" => v == k,
+        _ => v != k,
     }
 }
 
@@ -352,6 +526,8 @@ fn op_kg(op: &COp) -> Option<&String> {
         | COp::DropKg { kg }
         | COp::RegisterRule { kg, .. }
         | COp::DropRule { kg, .. }
+        | COp::CondDelete { kg, .. }
+        | COp::Update { kg, .. }
         | COp::ReadConsistent { kg, .. } => Some(kg),
         _ => None,
     }
@@ -687,8 +863,19 @@ fn exec_engine(case: &ConcCase, out: &mut ConcOutcome, log: &mut Vec<u8>) -> Res
         plan.crash_inflight_write = c.inflight_write;
         simsys::set_plan(plan);
     }
-    let e2 = engine.clone();
-    let r = run_threads(case, out, move |op| apply_engine(&e2, op));
+    let r = if case.level == "handler" {
+        // requests through the real Handler; the engine is reached again through the handler's storage guard
+        let eng = Arc::try_unwrap(engine).map_err(|_| fail("harness", "engine still shared".into()))?;
+        let h = Arc::new(inputlayer::protocol::handler::Handler::new(eng));
+        let h2 = h.clone();
+        let r = run_threads(case, out, move |op| apply_handler(&h2, op));
+        out.events = simsys::ordinal() - base_ord;
+        r?;
+        return finish_handler(&h, &init, out);
+    } else {
+        let e2 = engine.clone();
+        run_threads(case, out, move |op| apply_engine(&e2, op))
+    };
     out.events = simsys::ordinal() - base_ord;
     r?;
     let n = out.history.len();
@@ -769,6 +956,30 @@ fn exec_engine(case: &ConcCase, out: &mut ConcOutcome, log: &mut Vec<u8>) -> Res
     let after = observe(&engine).map_err(|d| fail("observe_failed", d))?;
     if let Some(d) = after.diff_facts(&before) {
         return Err(fail("post:restart_differs_facts", d));
+    }
+    Ok(())
+}
+
+fn finish_handler(h: &inputlayer::protocol::handler::Handler, init: &Obs, out: &mut ConcOutcome) -> Result<(), Failure> {
+    let n = out.history.len();
+    if n > 20 {
+        return Err(fail("harness", "history too long for the checker".into()));
+    }
+    let fin = {
+        let g = h.get_storage();
+        observe(&g).map_err(|d| fail("observe_failed", d))?
+    };
+    out.state_hashes.push(fnv64(serde_json::to_string(&fin).unwrap_or_default().as_bytes()));
+    if let Some(d) = fin.has_duplicates() {
+        return Err(fail("not_a_set", d));
+    }
+    let optional = vec![false; n];
+    let checks = vec![true; n];
+    let lr = linearize(init, &out.history, &optional, Some(&fin), &checks);
+    out.linearizations_tried = lr.tried;
+    out.final_obs = Some(fin);
+    if !lr.ok {
+        return Err(fail("not_linearizable", lr.why));
     }
     Ok(())
 }
